@@ -17,6 +17,7 @@ pub struct CrdtSession {
     pub changes: BTreeMap<String, Change>,
     pub enc: Option<TextEncoding>,
     pub files: BTreeMap<String, (Vec<u8>, Vec<(usize, String)>)>,
+    pub tx_snapshots: BTreeMap<String, Vec<u8>>,
 }
 
 // ---------- canonical text forms (shared with Lean `Spec.show*`) ----------
@@ -222,6 +223,28 @@ fn prop_of(s: &str) -> automerge::Prop {
 
 pub fn exec(s: &mut CrdtSession, toks: &[&str]) -> Vec<String> {
     let enc = s.enc.unwrap_or(TextEncoding::UnicodeCodePoint);
+    const EDITS: [&str; 7] = ["crdt.put", "crdt.putobj", "crdt.ins", "crdt.insobj", "crdt.del", "crdt.inc", "crdt.splice"];
+    if EDITS.contains(&toks[0]) {
+        // C28 snapshot: the saved bytes of the document before its transaction opens
+        if let Some(d) = s.replicas.get_mut(toks[1]) {
+            if d.pending_ops() == 0 && !s.tx_snapshots.contains_key(toks[1]) {
+                let snap = d.clone().save();
+                s.tx_snapshots.insert(toks[1].to_string(), snap);
+            }
+        }
+        // C03 direct oracle: a call that returns an error changes nothing
+        let before = s.replicas.get(toks[1]).map(|d| (show_doc(d, None, enc), d.pending_ops()));
+        let mut res = exec_inner(s, toks, enc);
+        if res.get(0).map(|x| x.starts_with("err")).unwrap_or(false) {
+            let after = s.replicas.get(toks[1]).map(|d| (show_doc(d, None, enc), d.pending_ops()));
+            if before != after { res.push(format!("! C03 sig=error-changed-state {} returned {} but changed the document or its pending ops", toks[0], res[0])); }
+        }
+        return res;
+    }
+    exec_inner(s, toks, enc)
+}
+
+fn exec_inner(s: &mut CrdtSession, toks: &[&str], enc: TextEncoding) -> Vec<String> {
     match toks[0] {
         "crdt.def" => {
             // crdt.def hash actor seq startop deps ops raw : register the change (from its raw bytes)
@@ -269,7 +292,80 @@ pub fn exec(s: &mut CrdtSession, toks: &[&str]) -> Vec<String> {
         "crdt.state_at" => {
             let hs = parse_hashes(toks[2]);
             let d = s.replicas.get_mut(toks[1]).unwrap();
-            vec![show_doc(d, Some(&hs), enc)]
+            let st = show_doc(d, Some(&hs), enc);
+            let mut res = vec![st.clone()];
+            // C07 direct oracle: the same read on a document containing exactly those heads' ancestors
+            match d.fork_at(&hs) {
+                Ok(mut f) => {
+                    let fs = show_doc(&f, None, enc);
+                    if fs != st { res.push(format!("! C07 sig=at-vs-fork state at heads differs from fork_at(heads) state")); }
+                    let mut fh = f.get_heads(); fh.sort();
+                    let mut want = hs.clone(); want.sort(); want.dedup();
+                    if fh != want { res.push("! C07 sig=fork-heads fork_at(heads) does not have the given heads".to_string()); }
+                }
+                Err(_) => res.push("! C07 sig=fork-failed fork_at failed for heads of the document's history".to_string()),
+            }
+            res
+        }
+        // crdt.changes r <have|->: get_changes(have): sorted hashes; C10 oracles on bytes / order / hash
+        "crdt.changes" => {
+            use sha2::Digest;
+            let have = parse_hashes(toks[2]);
+            let d = s.replicas.get_mut(toks[1]).unwrap();
+            let cs = d.get_changes(&have);
+            let mut res = vec![];
+            let mut seen: Vec<ChangeHash> = vec![];
+            let all_before: std::collections::BTreeSet<ChangeHash> = d.get_changes(&[]).iter().map(|c| c.hash()).collect();
+            for c in &cs {
+                let hh = hex::encode(c.hash().0);
+                match s.changes.get(&hh) {
+                    Some(orig) => if orig.raw_bytes() != c.raw_bytes() { res.push(format!("! C10 sig=bytes-differ change {} retrieved with different bytes than created", hh)); },
+                    None => res.push(format!("! C10 sig=unknown-change get_changes returned unknown change {}", hh)),
+                }
+                // hash = SHA-256 of the chunk contents (type byte, length, body)
+                let raw = c.raw_bytes();
+                let cb = chunk_bounds(raw);
+                if cb.len() != 1 || cb[0].1 != c.hash().0.to_vec() { res.push(format!("! C10 sig=hash change {} hash is not the SHA-256 of its chunk", hh)); }
+                let _ = sha2::Sha256::new();
+                for dep in c.deps() {
+                    if all_before.contains(dep) && !seen.contains(dep) && cs.iter().any(|x| x.hash() == *dep) {
+                        res.push(format!("! C10 sig=order change {} returned before its dependency", hh));
+                    }
+                }
+                seen.push(c.hash());
+                match d.get_change_by_hash(&c.hash()) {
+                    Some(x) => if x.raw_bytes() != c.raw_bytes() { res.push(format!("! C10 sig=by-hash get_change_by_hash({}) differs", hh)); },
+                    None => res.push(format!("! C10 sig=by-hash get_change_by_hash({}) is None", hh)),
+                }
+            }
+            let hs: Vec<ChangeHash> = cs.iter().map(|c| c.hash()).collect();
+            res.insert(0, format!("ok {}", show_hashes(&hs)));
+            res
+        }
+        // crdt.saveload r r2 <deflate 0|1>: r2 := load(save(r)); C11 oracles
+        "crdt.saveload" => {
+            let d = s.replicas.get_mut(toks[1]).unwrap();
+            let deflate = toks[3] == "1";
+            let bytes = d.save_with_options(automerge::SaveOptions { deflate, retain_orphans: true });
+            let mut res = vec![];
+            match AutoCommit::load_with_options(&bytes, automerge::LoadOptions::new().text_encoding(enc)) {
+                Ok(mut l) => {
+                    let actor = d.get_actor().clone();
+                    if show_doc(&l, None, enc) != show_doc(d, None, enc) { res.push("! C11 sig=state loaded document shows a different state".to_string()); }
+                    if l.get_heads() != d.get_heads() { res.push("! C11 sig=heads loaded document has different heads".to_string()); }
+                    if l.get_missing_deps(&[]) != d.get_missing_deps(&[]) { res.push("! C11 sig=orphans loaded document has different pending changes".to_string()); }
+                    let a: Vec<Vec<u8>> = d.get_changes(&[]).iter().map(|c| c.raw_bytes().to_vec()).collect();
+                    let b: Vec<Vec<u8>> = l.get_changes(&[]).iter().map(|c| c.raw_bytes().to_vec()).collect();
+                    let (mut a2, mut b2) = (a.clone(), b.clone()); a2.sort(); b2.sort();
+                    if a2 != b2 { res.push("! C11 sig=change-bytes loaded document returns different change bytes".to_string()); }
+                    let again = l.save_with_options(automerge::SaveOptions { deflate, retain_orphans: true });
+                    if again != bytes { res.push("! C11 sig=resave saving the loaded document gives different bytes".to_string()); }
+                    res.insert(0, format!("ok {}", summary(&mut l)));
+                    s.replicas.insert(toks[2].to_string(), l.with_actor(actor));
+                }
+                Err(e) => { res.push("err".to_string()); res.push(format!("! C11 sig=load-failed load(save(doc)) failed: {}", e)); }
+            }
+            res
         }
         // ----- storage -----
         "crdt.file" => {
@@ -368,9 +464,28 @@ pub fn exec(s: &mut CrdtSession, toks: &[&str]) -> Vec<String> {
         }
         "crdt.rollback" => {
             let d = s.replicas.get_mut(toks[1]).unwrap();
-            vec![format!("{}", d.rollback())]
+            let n = d.rollback();
+            let mut res = vec![format!("{}", n)];
+            // C28 direct oracle: saved bytes equal those before the transaction, and the next change is
+            // byte-identical to the one an untouched copy (reloaded from the snapshot) produces
+            if let Some(snap) = s.tx_snapshots.remove(toks[1]) {
+                let now = d.clone().save();
+                if now != snap { res.push("! C28 sig=save-differs save() after rollback differs from save() before the transaction".to_string()); }
+                let actor = d.get_actor().clone();
+                if let Ok(fresh) = AutoCommit::load_with_options(&snap, automerge::LoadOptions::new().text_encoding(enc)) {
+                    let mut fresh = fresh.with_actor(actor);
+                    let mut probe = d.clone();
+                    let a = fresh.put(ROOT, "__probe", 1i64).and_then(|_| Ok(fresh.commit_with(automerge::transaction::CommitOptions::default().with_time(0))));
+                    let b = probe.put(ROOT, "__probe", 1i64).and_then(|_| Ok(probe.commit_with(automerge::transaction::CommitOptions::default().with_time(0))));
+                    let ca = fresh.get_last_local_change().map(|c| c.raw_bytes().to_vec());
+                    let cb = probe.get_last_local_change().map(|c| c.raw_bytes().to_vec());
+                    if a.is_ok() != b.is_ok() || ca != cb { res.push("! C28 sig=next-change-differs the change made after rollback differs from the one an untouched document makes".to_string()); }
+                }
+            }
+            res
         }
         "crdt.commit" => {
+            s.tx_snapshots.remove(toks[1]);
             let d = s.replicas.get_mut(toks[1]).unwrap();
             let h = d.commit_with(automerge::transaction::CommitOptions::default().with_time(0));
             vec![match h { Some(_) => "ok".to_string(), None => "none".to_string() }]
@@ -478,15 +593,41 @@ pub fn generate(r: &mut Rng, _opts: &BTreeMap<String, String>, sess: &mut Sessio
         }
     }
     observe(sess, out, &names);
-    // historical reads at a few head sets
+    // C10 / C11: retrieval of history and save→load round trip
     if !all_changes.is_empty() {
-        for _ in 0..2 {
-            let h = all_changes[r.below(all_changes.len() as u64) as usize].clone();
-            exec_line(sess, &format!("crdt.state_at r0 {}", h), out);
+        let h = all_changes[r.below(all_changes.len() as u64) as usize].clone();
+        exec_line(sess, "crdt.changes r0 -", out);
+        exec_line(sess, &format!("crdt.changes r0 {}", h), out);
+        let who = names[r.below(names.len() as u64) as usize].clone();
+        exec_line(sess, &format!("crdt.saveload {} l {}", who, r.below(2)), out);
+        exec_line(sess, "crdt.state l", out);
+        exec_line(sess, "crdt.changes l -", out);
+    }
+    // historical reads at a few head sets taken from r0's own history (single hashes and pairs)
+    let own: Vec<String> = sess.crdt.replicas.get_mut("r0").unwrap().get_changes(&[]).iter().map(|c| hex::encode(c.hash().0)).collect();
+    if !own.is_empty() {
+        for _ in 0..3 {
+            let h = own[r.below(own.len() as u64) as usize].clone();
+            if r.chance(1, 2) {
+                exec_line(sess, &format!("crdt.state_at r0 {}", h), out);
+            } else {
+                let h2 = own[r.below(own.len() as u64) as usize].clone();
+                // a head SET must be an antichain for fork_at; keep the pair only if neither is an ancestor of the other
+                let d = sess.crdt.replicas.get_mut("r0").unwrap();
+                let a = ChangeHash::try_from(unhx(&h).as_slice()).unwrap();
+                let b = ChangeHash::try_from(unhx(&h2).as_slice()).unwrap();
+                let anc_a: Vec<ChangeHash> = d.fork_at(&[a]).map(|mut f| f.get_changes(&[]).iter().map(|c| c.hash()).collect()).unwrap_or_default();
+                let anc_b: Vec<ChangeHash> = d.fork_at(&[b]).map(|mut f| f.get_changes(&[]).iter().map(|c| c.hash()).collect()).unwrap_or_default();
+                if a != b && !anc_a.contains(&b) && !anc_b.contains(&a) {
+                    out.count("state_at_pair");
+                    exec_line(sess, &format!("crdt.state_at r0 {},{}", h, h2), out);
+                } else {
+                    exec_line(sess, &format!("crdt.state_at r0 {}", h), out);
+                }
+            }
         }
     }
 }
-
 
 /// one local transaction of 1..4 random edits on replica `who`, committed; announces the new change
 pub fn local_tx(r: &mut Rng, sess: &mut Session, out: &mut Out, who: &str, known_objs: &mut Vec<(String, ObjType)>, all_changes: &mut Vec<String>) {
